@@ -109,6 +109,12 @@ CHECKS["C20"] = {
 
 ALL = ["C%02d" % i for i in range(1, 21)]
 
+CHECKS["C04"] = {
+    "technique": "runtime monitoring: shadow-model monitor - every write the generated program makes is mirrored into a model keyed by (variable, index tuple, field path); printed read-backs and the hook's end-of-run dump of every element and field of every array and record are compared with the model",
+    "text": "Straight-line programs over arrays of 1-3 dimensions with assorted lower bounds (element types: the five built-ins, STRING * n, records with a nested record and fixed strings), record and fixed-string variables; bounded-exhaustive over every shape with at most 24 (quick) / 60 (thorough) elements: write a unique value to every element, read all back, then access EVERY tuple of the one-step-extended index box that lies outside the bounds (reads and writes, counted by an ON ERROR handler) and compare the complete dump; random mixes with subscripts given as INTEGER, LONG and SINGLE expressions, REDIM histories (explicit and bare), fixed strings assigned directly, through a by-reference parameter and by record copy.",
+    "note": "Array parameters, REDIM inside procedures and ERASE are not generated; rounding ties are discarded.",
+    "design": "DESIGN.md section 2 C04",
+}
 NOT_BUILT_REASON = "check not built yet in this round (design in DESIGN.md section 2); nothing is claimed for it"
 
 
